@@ -7,6 +7,7 @@ CONSTANTS
   WCounts = {2}
   SOffs = {0}
   VBufs <- MC_None
+  MFmts <- MC_None
   VSizes = {0}
   Extra <- MC_AllExtra
   Naive = FALSE
